@@ -510,10 +510,7 @@ def check_timer(run: Run, prog: Program) -> None:  # noqa: C901
     # every path that changes the state re-evaluates the status afterwards
     def changes(p: PathSum) -> list[int]:
         out = [i for i, _t, _v in p.writes_where(lambda t: t.endswith("." + FLAG))]
-        se = status_events(p)
-        first_eval = se[0] if se else len(p.events)
-        out += [i for t in ("block", "unblock") for i in p.call_texts(f"self._blocking_status.{t}()") if i < first_eval]
-        return out
+        return out + [i for t in ("block", "unblock") for i in p.call_texts(f"self._blocking_status.{t}()")]
     for source in lp.sources:
         side = lp.side(source)
         bad = first([p for p in side if changes(p) and not any(j > max(changes(p)) for j in status_events(p))])
@@ -855,10 +852,10 @@ def check(run: Run, prog: Program, tier: str) -> str:
              "WORKING, in `uncertain` only for UNCERTAIN, in neither for NOT_WORKING, on every path; every update is sent")
     run_rules(run, prog)
     run.floor("C16.POOL", 4)
-    run.floor("C16.SAFE", 16)
-    run.floor("C16.TIMER", 13)
+    run.floor("C16.SAFE", 14)
+    run.floor("C16.TIMER", 15)
     run.floor("C16.CHANGE", 3)
-    run.floor("C16.BLOCK", 11)
+    run.floor("C16.BLOCK", 13)
     from ..engine.controls import run_controls
 
     run_controls(run, CONTROLS, run_rules, tier, base_prog=prog)
